@@ -3,9 +3,11 @@ package logger
 import (
 	"context"
 	"errors"
+	"io"
 	"log/slog"
 	"net/http"
 	"net/url"
+	"strings"
 
 	"github.com/whoisnian/glb/httpd"
 )
@@ -35,6 +37,11 @@ func (h *c15Log) WithGroup(name string) Handler     { return h }
 func (h *c15Log) Handle(_ context.Context, r slog.Record) error {
 	rec := c15Rec{level: r.Level, msg: r.Message, attrs: map[string]slog.Value{}}
 	r.Attrs(func(a slog.Attr) bool {
+		if a.Value.Kind() == slog.KindString {
+			// Store.GetID() returns a string that aliases the pooled Store's ID buffer (valid during the request):
+			// a handler that keeps records must copy it, as the real handlers do by formatting at once
+			a.Value = slog.StringValue(strings.Clone(a.Value.String()))
+		}
 		rec.attrs[a.Key] = a.Value
 		rec.keys = append(rec.keys, a.Key)
 		return true
@@ -67,6 +74,13 @@ func (w *c15W) Write(b []byte) (int, error) {
 	}
 	w.body += len(b)
 	return len(b), nil
+}
+
+// Flush: like net/http's response and httptest.ResponseRecorder, flushing sends the header (200) when none was sent yet
+func (w *c15W) Flush() {
+	if w.status == 0 {
+		w.status = 200
+	}
 }
 
 type c15Ptr struct{ x int }
@@ -110,7 +124,13 @@ func H_C15_relay() {
 	panics := vxPick(3) // 0 no panic, 1 panic before writing, 2 panic after writing
 	pk := vxPick(5)
 	pval := c15PanicValue(pk)
+	flushFirst := vxBool()  // the handler flushes before anything else (streaming handlers do): the header goes out as 200
+	vxAssume(!(flushFirst && writeHdr)) // "status set once": an explicit WriteHeader after the flushed (implicit 200) header is a second status, outside the claim
+	viaString := vxBool()   // the body is written with io.WriteString (uses a WriteString method when the writer has one)
 	handler := func(s *httpd.Store) {
+		if flushFirst {
+			s.W.Flush()
+		}
 		if panics == 1 {
 			panic(pval)
 		}
@@ -118,7 +138,11 @@ func H_C15_relay() {
 			s.W.WriteHeader(code)
 		}
 		if writeBody {
-			s.W.Write([]byte("body"))
+			if viaString {
+				io.WriteString(s.W, "body")
+			} else {
+				s.W.Write([]byte("body"))
+			}
 		}
 		if panics == 2 {
 			panic(pval)
@@ -136,7 +160,7 @@ func H_C15_relay() {
 	req := &http.Request{Method: http.MethodGet, URL: &url.URL{Path: "/a/1"}, RequestURI: "/a/1?q=" + vxString(1), RemoteAddr: "10.0.0.7:5" + port}
 	mux.ServeHTTP(w, req) // a panic escaping here is a violation (engine default)
 
-	wroteSomething := (writeHdr || writeBody) && panics != 1
+	wroteSomething := flushFirst || ((writeHdr || writeBody) && panics != 1)
 	didPanic := panics != 0
 	// 500 iff the handler panicked before any status was written
 	if didPanic && !wroteSomething {
@@ -144,10 +168,13 @@ func H_C15_relay() {
 		vxReach("500 sent after panic")
 	} else if wroteSomething {
 		want := 200
-		if writeHdr {
+		if writeHdr && !flushFirst {
 			want = code
 		}
 		vxAssert(w.status == want, "C15: status on the wire differs from what the handler wrote")
+		if flushFirst && didPanic {
+			vxReach("panic after a flushed header")
+		}
 	} else {
 		vxAssert(w.status == 0, "C15: a status was sent although the handler wrote nothing and did not panic")
 	}
@@ -245,6 +272,36 @@ func H_C15_overlap() {
 	vxAssert(tid(slow[0]) != tid(fast[0]), "C15: two requests in flight share an ID")
 	vxAssert(int(slow[1].attrs["code"].Int64()) == 201, "C15: outer request's logged status is wrong")
 	vxReach("overlapping requests")
+}
+
+// two requests one after the other on one Mux (the pooled Store is reused) from different clients: the second
+// request's records carry its own client IP, URI and a new ID
+func H_C15_sequence() {
+	lg := &c15Log{threshold: LevelInfo}
+	l := New(lg)
+	mux := httpd.NewMux()
+	mux.HandleRelay(l.Relay)
+	first := vxPick(3)
+	mux.Handle("/a", http.MethodGet, func(s *httpd.Store) {
+		if first == 1 {
+			s.W.WriteHeader(vxInt(200, 599))
+		} else if first == 2 {
+			panic("first boom")
+		}
+	})
+	mux.Handle("/b", http.MethodPost, func(s *httpd.Store) { s.W.WriteHeader(204) })
+	mux.ServeHTTP(&c15W{}, &http.Request{Method: http.MethodGet, URL: &url.URL{Path: "/a"}, RequestURI: "/a", RemoteAddr: "198.51.100.7:4000"})
+	n := len(lg.recs)
+	w := &c15W{}
+	mux.ServeHTTP(w, &http.Request{Method: http.MethodPost, URL: &url.URL{Path: "/b"}, RequestURI: "/b?x=1", RemoteAddr: "[2001:db8::2]:5000"})
+	vxAssert(len(lg.recs) == n+2, "C15: second request did not produce exactly REQ_BEG and REQ_END")
+	b, e := lg.recs[n], lg.recs[n+1]
+	for _, r := range []c15Rec{b, e} {
+		vxAssert(r.attrs["ip"].String() == "2001:db8::2" && r.attrs["method"].String() == "POST" && r.attrs["path"].String() == "/b?x=1", "C15: a record of the second request carries another request's client IP / method / URI")
+	}
+	vxAssert(b.attrs["tid"].String() == e.attrs["tid"].String() && b.attrs["tid"].String() != lg.recs[0].attrs["tid"].String(), "C15: second request's ID is not its own")
+	vxAssert(int(e.attrs["code"].Int64()) == 204 && w.status == 204, "C15: second request's logged status is wrong")
+	vxReach("two requests in sequence")
 }
 
 // http.ErrAbortHandler is outside the claim; it must at least not crash the harness
